@@ -11,6 +11,7 @@
 -/
 import YaraModel.Gen.Bounds
 import YaraModel.Lemmas.Bounds
+set_option linter.unusedSimpArgs false
 namespace YaraModel.C06
 open YaraModel.Gen.Bounds YaraModel.PeRva
 
@@ -57,19 +58,21 @@ theorem function_read_in_range_sound (base sz off n : BitVec 64) (hv : base.toNa
 
 example : function_read_in_range 0x400000#64 0x10#64 0x40000c#64 4#64 = true := by decide
 
-/-- **F10.** The full-strength statement is FALSE for `is_valid_ptr` (elf.c): `ptr + ptr_size`
-    wraps around for `ptr` near 2^64 (`ptr` is `elf_raw + <64-bit offset from the file>`).
+/-- **F10.** The full-strength statement is FALSE for `is_valid_ptr` as written in yara 4.5.2 (elf.c:309-310, frozen copy
+    `Lemmas/Bounds.is_valid_ptr_v452`; the live text is `Gen.Bounds.is_valid_ptr` and is searched for such tuples on every
+    run by vf/checks/c06.py): `ptr + ptr_size` wraps around for `ptr` near 2^64 (`ptr` is `elf_raw + <64-bit file offset>`).
     Witness: a valid 4 KiB buffer at 0x1000, ptr = 2^64-8, ptr_size = 16 is accepted. -/
-theorem is_valid_ptr_unsound_witness :
-    ∃ b sz p n : BitVec 64, b.toNat + sz.toNat < 2 ^ 64 ∧ is_valid_ptr b sz p n = true ∧ ¬ InRange b sz p n :=
+theorem is_valid_ptr_v452_unsound_witness :
+    ∃ b sz p n : BitVec 64, b.toNat + sz.toNat < 2 ^ 64 ∧ is_valid_ptr_v452 b sz p n = true ∧ ¬ InRange b sz p n :=
   ⟨0x1000#64, 0x1000#64, 0xFFFFFFFFFFFFFFF8#64, 16#64, by decide, by decide, by unfold InRange; decide⟩
 
 /-- What does hold: `is_valid_ptr` is sound when `ptr + ptr_size` does not wrap (extra hypothesis `hp`).
-    Full statement (false, see witness): the same without `hp`. -/
+    Full statement (false for the 4.5.2 text, see witness): the same without `hp`. -/
 theorem is_valid_ptr_sound_partial (b sz p n : BitVec 64) (hv : b.toNat + sz.toNat < 2 ^ 64)
     (hp : p.toNat + n.toNat < 2 ^ 64)
     (h : is_valid_ptr b sz p n = true) : InRange b sz p n := by
-  simp only [is_valid_ptr, Bool.and_eq_true, decide_eq_true_eq, BitVec.le_def, BitVec.toNat_add] at h
+  -- (simp set covers both the 4.5.2 text and the subtraction form of notes/C06-is_valid_ptr.diff)
+  simp only [is_valid_ptr, Bool.and_eq_true, decide_eq_true_eq, BitVec.le_def, BitVec.toNat_add, BitVec.toNat_sub] at h
   unfold InRange
   omega
 
@@ -92,8 +95,8 @@ theorem arena_reloc_accept_sound_partial (id nb off used bd : BitVec 64) (hu : 8
   have h8 : (8#64).toNat = 8 := by decide
   refine ⟨by omega, by omega, h.2⟩
 
-theorem arena_reloc_unsound_witness :
-    ∃ id nb off used bd : BitVec 64, arena_reloc_reject id nb off used bd = false ∧ ¬ off.toNat + 8 ≤ used.toNat :=
+theorem arena_reloc_v452_unsound_witness :
+    ∃ id nb off used bd : BitVec 64, arena_reloc_reject_v452 id nb off used bd = false ∧ ¬ off.toNat + 8 ≤ used.toNat :=
   ⟨0#64, 1#64, 0xFFFFFF00#64, 4#64, 1#64, by decide, by decide⟩
 
 /-- Mach-O fat archive entry (macho.c): an entry that passes both tests lies inside the file, for all values. -/
